@@ -108,10 +108,25 @@ let () =
         let early, late = (match segs with [a; b] -> (lens a, lens b) | _ -> failwith "bad I line") in
         let (st, evs) = iostream_run (conf_of tool) early late (List.map outcome_of_token outs) in
         print_endline (string_of_status st ^ " " ^ String.concat "" (List.map (string_of_event false) evs))
-      | ["W"; wr; needs; lines; term; fok] ->
+      | "WM" :: wr :: needs :: lines :: tail :: term :: rest ->
+        (* WM <wrapper> <child lines needed per input record, csv or -> <complete lines the child wrote> <bytes of an unterminated last line>
+              <term> | feeder outcomes | collector outcomes
+           the wrapper mains of Sys/WrapperMainDefs.v with the record logic instantiated by the given needs
+           (record i: need_i lines sent to the child, need_i lines read back) *)
+        let _, r1 = split_bar rest [] in
+        let fo, co = split_bar r1 [] in
         let w = (match wr with "cache" -> Cache | "foldfilter" -> Foldfilter | "b64filter" -> B64filter | _ -> failwith "bad wrapper") in
         let nl = if needs = "-" then [] else List.map (fun x -> nat_of_int (int_of_string x)) (String.split_on_char ',' needs) in
-        print_endline (string_of_status (wrapper_status w nl (nat_of_int (int_of_string lines)) (term_of term) (fok = "1")))
+        let x = z_of_int 120 and nlc = z_of_int 10 in
+        let feed sf _ = (match sf with
+            | n :: r -> ((r, n), List.init (int_of_nat n) (fun _ -> [x; nlc]))
+            | [] -> (([], O), [])) in
+        let emit () _ ls = ((), List.map (fun l -> l @ [nlc]) ls) in
+        let input = List.concat (List.map (fun _ -> [x; nlc]) nl) in
+        let child_out = List.concat (List.init (int_of_string lines) (fun _ -> [x; nlc])) @ List.init (int_of_string tail) (fun _ -> x) in
+        let ((st, evf), evc) = wrapper_main_run feed (fun d -> d) emit w (nat_of_int 4096) nl () (z_of_int 4) (z_of_int 5) input child_out (term_of term)
+            (List.map outcome_of_token fo) (List.map outcome_of_token co) in
+        print_endline (string_of_status st ^ " " ^ String.concat "" (List.map (string_of_event false) evf) ^ " | " ^ String.concat "" (List.map (string_of_event false) evc))
       | ["WAIT"; term] -> print_endline (string_of_z (wait (wstatus (term_of term))))
       | ["WAITRAW"; w] -> print_endline (string_of_z (wait (z_of_int (int_of_string w))))
       | ["CONST"] ->
